@@ -902,4 +902,116 @@ theorem setVarName_complete :
     (Names.setVarNames ("X", "Y") ("x", " X")).2 = .error .inputValue := by
   refine ⟨by decide +kernel, by decide +kernel, by decide +kernel⟩
 
+/-! ### NewIdeal / Quotient / SPolynomial (reply strings of the object-level operations)
+
+  These operations exist in the model only at the object level; their error replies are
+  `"err " ++ kind name`. -/
+
+theorem errReply_names :
+    "err " ++ Kind.inputValue.name = "err InputValue" ∧
+    "err " ++ Kind.inputIncompatible.name = "err InputIncompatible" ∧
+    "err-ideal " ++ Kind.inputValue.name = "err-ideal InputValue" := by
+  refine ⟨by decide +kernel, by decide +kernel, by decide +kernel⟩
+
+theorem closed_univariate_NewIdeal : kindsOf Gen.errClosed "univariate.QuotientRing.NewIdeal" =
+    ["InputValue", "InputIncompatible", "ArithmeticIncompat", "Overflow"] := by decide +kernel
+theorem direct_univariate_NewIdeal : kindsOf Gen.errDirect "univariate.QuotientRing.NewIdeal" =
+    ["InputValue", "InputIncompatible"] := by decide +kernel
+theorem closed_univariate_Quotient : kindsOf Gen.errClosed "univariate.QuotientRing.Quotient" =
+    ["InputValue", "InputIncompatible"] := by decide +kernel
+theorem direct_univariate_Quotient : kindsOf Gen.errDirect "univariate.QuotientRing.Quotient" =
+    ["InputValue", "InputIncompatible"] := by decide +kernel
+theorem closed_bivariate_NewIdeal : kindsOf Gen.errClosed "bivariate.QuotientRing.NewIdeal" =
+    ["InputValue", "InputIncompatible"] := by decide +kernel
+theorem direct_bivariate_NewIdeal : kindsOf Gen.errDirect "bivariate.QuotientRing.NewIdeal" =
+    ["InputIncompatible", "InputValue"] := by decide +kernel
+theorem closed_bivariate_Quotient : kindsOf Gen.errClosed "bivariate.QuotientRing.Quotient" =
+    ["InputValue", "InputIncompatible", "ArithmeticIncompat", "Overflow"] := by decide +kernel
+theorem direct_bivariate_Quotient : kindsOf Gen.errDirect "bivariate.QuotientRing.Quotient" =
+    ["InputValue", "InputIncompatible"] := by decide +kernel
+theorem closed_bivariate_SPolynomial : kindsOf Gen.errClosed "bivariate.SPolynomial" =
+    ["InputValue", "InputIncompatible", "ArithmeticIncompat", "Overflow"] := by decide +kernel
+theorem direct_bivariate_SPolynomial : kindsOf Gen.errDirect "bivariate.SPolynomial" =
+    ["InputValue"] := by decide +kernel
+
+section replies
+variable {α : Type} (env : Env α)
+
+/-- `uquot@k j:gens` = `NewIdeal` in ring j, then `ring k .Quotient(id)`: the ideal step fails only with
+    InputValue (∈ closed list of `univariate.QuotientRing.NewIdeal`), the quotient step only with
+    InputValue or InputIncompatible (= the closed list of `univariate.QuotientRing.Quotient`) -/
+theorem uquot_reply_sound (st : St α) (k j : Nat) (gens : List (UPoly α)) :
+    (uquotOp env st k j gens).2 = "ok" ∨ (uquotOp env st k j gens).2 = "bad-op" ∨
+    ((uquotOp env st k j gens).2 = "err-ideal " ++ Kind.inputValue.name ∧
+      Kind.inputValue.name ∈ kindsOf Gen.errClosed "univariate.QuotientRing.NewIdeal") ∨
+    (∃ kd : Kind, (uquotOp env st k j gens).2 = "err " ++ kd.name ∧
+      kd.name ∈ kindsOf Gen.errClosed "univariate.QuotientRing.Quotient") := by
+  rw [closed_univariate_NewIdeal, closed_univariate_Quotient, errReply_names.2.2]
+  have hm : "InputValue" ∈ ["InputValue", "InputIncompatible", "ArithmeticIncompat", "Overflow"] := by simp
+  unfold uquotOp
+  repeat' split
+  · exact .inr (.inl rfl)
+  · exact .inr (.inr (.inl ⟨rfl, hm⟩))
+  · exact .inr (.inr (.inl ⟨rfl, hm⟩))
+  · exact .inr (.inr (.inr ⟨.inputValue, by rw [errReply_names.1], by simp [Kind.toString]⟩))
+  · exact .inr (.inr (.inr ⟨.inputIncompatible, by rw [errReply_names.2.1], by simp [Kind.toString]⟩))
+  · exact .inl rfl
+
+/-- `bivariate.(*QuotientRing).NewIdeal` (`Op.iNew`): the error replies are InputIncompatible and
+    InputValue — exactly the closed (and direct) list of the Go function -/
+theorem iNew_reply_sound (s : St α) (dst ring : Nat) (gs : List Nat) :
+    ∃ r, stepB env s (.iNew dst ring gs) = some r ∧
+      ((∃ kd : Kind, r.2 = "err " ++ kd.name ∧
+          kd.name ∈ kindsOf Gen.errClosed "bivariate.QuotientRing.NewIdeal") ∨
+       ∃ gens, r.2 = "ok " ++ showGens env (bord env 0) gens) := by
+  rw [closed_bivariate_NewIdeal]
+  simp only [stepB]
+  split
+  · exact ⟨_, rfl, .inl ⟨.inputIncompatible, by rw [errReply_names.2.1], by simp [Kind.toString]⟩⟩
+  · split
+    · exact ⟨_, rfl, .inl ⟨.inputValue, by rw [errReply_names.1], by simp [Kind.toString]⟩⟩
+    · exact ⟨_, rfl, .inr ⟨_, rfl⟩⟩
+
+/-- `quotient@1` (a quotient of a quotient ring: InputValue) -/
+theorem quotient1_reply_sound (st : St α) (n : Nat) :
+    (quotient1Op env st n).2 = "bad-op" ∨
+    ((quotient1Op env st n).2 = "err " ++ Kind.inputValue.name ∧
+      Kind.inputValue.name ∈ kindsOf Gen.errClosed "bivariate.QuotientRing.Quotient") := by
+  rw [closed_bivariate_Quotient, errReply_names.1]
+  unfold quotient1Op
+  simp only
+  split
+  · exact .inr ⟨rfl, by simp [Kind.toString]⟩
+  · exact .inl rfl
+
+/-- `bivariate.SPolynomial` (`spolyOp`) with error-free operands of one ring: the only error reply is
+    InputValue (a zero operand) -/
+theorem spoly_reply_sound (st : St α) (dst a b : Nat) (hc : bCheck (bGet st a) [bGet st b] = none) :
+    (spolyOp env st dst a b).2 = "fuel-exhausted" ∨
+    ((spolyOp env st dst a b).2 = "err " ++ Kind.inputValue.name ∧
+      Kind.inputValue.name ∈ kindsOf Gen.errClosed "bivariate.SPolynomial") ∨
+    ∃ r : BReg α, (spolyOp env st dst a b).2 = "ok " ++ showB env r := by
+  rw [closed_bivariate_SPolynomial, errReply_names.1]
+  unfold spolyOp
+  simp only [hc]
+  repeat' split
+  · exact .inr (.inl ⟨rfl, by simp [Kind.toString]⟩)
+  · exact .inl rfl
+  · exact .inl rfl
+  · exact .inr (.inr ⟨_, rfl⟩)
+
+end replies
+
+/-- the direct lists of the four ring-level constructors, and concrete replies of the model:
+    a quotient of a quotient ring and an ideal of another ring (univariate); generators of another
+    ring and no nonzero generator (bivariate `NewIdeal`). -/
+theorem ideals_complete :
+    kindsOf Gen.errDirect "univariate.QuotientRing.NewIdeal" = ["InputValue", "InputIncompatible"] ∧
+    kindsOf Gen.errDirect "univariate.QuotientRing.Quotient" = ["InputValue", "InputIncompatible"] ∧
+    kindsOf Gen.errDirect "bivariate.QuotientRing.NewIdeal" = ["InputIncompatible", "InputValue"] ∧
+    kindsOf Gen.errDirect "bivariate.QuotientRing.Quotient" = ["InputValue", "InputIncompatible"] ∧
+    kindsOf Gen.errDirect "bivariate.SPolynomial" = ["InputValue"] :=
+  ⟨direct_univariate_NewIdeal, direct_univariate_Quotient, direct_bivariate_NewIdeal,
+   direct_bivariate_Quotient, direct_bivariate_SPolynomial⟩
+
 end Algobra.ErrTies
